@@ -335,6 +335,9 @@ def c18_run(ctx):
             "nested3": ak.unflatten(ak.unflatten(flat, [3, 0, 4, 1]), [2, 2]),
             "option-record": ak.mask(flat, [True, False, True, True, False, True, True, True]),
             "option-list": ak.mask(ak.unflatten(withx, [3, 0, 4, 1]), [True, False, True, True]),
+            # extra fields whose NAMES are fragments / extensions of coordinate names (n, et, p, ma, xx, pt2 ...): still extra fields
+            "flat+odd-extras": ak.with_field(ak.with_field(ak.with_field(ak.with_field(ak.with_field(ak.with_field(flat, charge, "n"), charge, "et"), charge, "p_"), charge, "ma"),
+                                                           charge, "xx"), charge, "pt2x"),
             "option-inner": ak.unflatten(ak.mask(withx, [True, False, True, True, False, True, True, False]), [3, 0, 4, 1]),
             "option-inner-nested": ak.unflatten(ak.unflatten(ak.mask(flat, [False, True, True, True, False, True, True, True]), [3, 0, 4, 1]), [1, 3]),
             "regular": ak.to_regular(ak.unflatten(flat, [4, 4]), axis=1),
@@ -906,6 +909,52 @@ def c20_run(ctx):
             j = [a_ != b_ for a_, b_ in zip(res, seq)].index(True)
             problems.append(("threads", f"thread {i}: call {cat[j][0]} gives {str(res[j])[:80]} but sequentially {str(seq[j])[:80]}"))
             break
+    # threads running the SAME operations with DIFFERENT scalar / object arguments (a value leaking from one thread into another
+    # shows up only then), under a very short switch interval, several rounds; each thread's results must equal its own sequential ones
+    import sys as _sys
+    def thread_ops(i):
+        k = 1.5 + 0.25 * i
+        ang = 0.1 + 0.07 * i
+        o2, o3, o4 = vector.obj(x=1.0 + i, y=-0.5 * i), vector.obj(x=1.0 + i, y=-0.5 * i, z=0.25 * i), vector.obj(x=1.0 + i, y=-0.5 * i, z=0.25 * i, t=20.0 + i)
+        rows = {2: [[1.0, 2.0], [3.0, -1.0], [0.5, 0.25]], 3: [[1.0, 2.0, 3.0], [3.0, -1.0, 0.5], [0.5, 0.25, -2.0]],
+                4: [[1.0, 2.0, 3.0, 10.0], [3.0, -1.0, 0.5, 12.0], [0.5, 0.25, -2.0, 9.0]]}
+        ops = []
+        for d, o in ((2, o2), (3, o3), (4, o4)):
+            sig = C.CARTSIG[d]
+            for tag, mk in (("np", C.np_array), ("ak", C.ak_array), ("akj", lambda fl, sg, rw: ak.unflatten(C.ak_array(fl, sg, rw), [2, 0, 1]))):
+                a = mk("g", sig, rows[d])
+                ops += [(f"{tag}{d}:scale", lambda a=a: a.scale(k)), (f"{tag}{d}:rotateZ", lambda a=a: a.rotateZ(ang)), (f"{tag}{d}:add-object", lambda a=a, o=o: a + o),
+                        (f"{tag}{d}:mul", lambda a=a: a * k)]
+                if d == 4:
+                    ops += [(f"{tag}4:boostX", lambda a=a: a.boostX(beta=0.05 * (i + 1))), (f"{tag}4:boost-object", lambda a=a, o=o: a.boost_p4(o))]
+                if d == 2:
+                    ops.append((f"{tag}2:to_Vector3D", lambda a=a: a.to_Vector3D(z=0.5 + i)))
+            ops.append((f"obj{d}:scale", lambda o=o: o.scale(k)))
+        return ops
+    nt2, rounds = 8, (12 if ctx.tier == "quick" else 60)
+    expected = [[run_thunk(t) for _, t in thread_ops(i)] for i in range(nt2)]
+    names_ = [nm for nm, _ in thread_ops(0)]
+    mism = []
+    old_si = _sys.getswitchinterval()
+    _sys.setswitchinterval(1e-5)
+    try:
+        def worker2(i):
+            ops = thread_ops(i)
+            for _ in range(rounds):
+                for j, (_, t) in enumerate(ops):
+                    if run_thunk(t) != expected[i][j]:
+                        mism.append((i, j))
+        ths2 = [threading.Thread(target=worker2, args=(i,)) for i in range(nt2)]
+        for t_ in ths2:
+            t_.start()
+        for t_ in ths2:
+            t_.join()
+    finally:
+        _sys.setswitchinterval(old_si)
+    if mism:
+        i, j = mism[0]
+        problems.append((f"threads-distinct-arguments:{names_[j]}", f"{len(mism)} results of {nt2} threads x {rounds} rounds differ from the thread's own sequential result; "
+                         f"first: thread {i}, call {names_[j]} (threads run the same operations with different scalar / object arguments)"))
     samples = [{"call": cat[i][0], "result": str(seq[i])[:120]} for i in (0, len(cat) // 2, len(cat) - 1)]
     sp, nd = c20_bracket_structure()
     problems += sp
